@@ -133,6 +133,52 @@ def _fire_once_events(ctx, cq, tr, events, prefix):
                 _fire_once_events(ctx, cq, tr, bp.events, prefix)
 
 
+def prefired_registries(cat):
+    """Registries that can hold a request whose Deferred was created already fired (defer.succeed / defer.fail stored in
+    .deferred, then the request is registered on the same path).  {registry: (context, store event, REG event)}"""
+    got = getattr(cat, "_prefired", None)
+    if got is not None:
+        return got
+    regs = {}
+    for tr in contexts(cat):
+        pre = {}
+        for e in tr.path.walk():
+            if e.kind == "SETATTR" and e.a["field"] == "deferred":
+                v = e.a["val"]
+                if isinstance(v, tuple) and v and v[0] == "dfr" and len(v) > 2 and v[2] in ("succeed", "fail"):
+                    pre[e.a["obj"]] = e
+                else:
+                    pre.pop(e.a["obj"], None)
+            elif e.kind == "REG" and e.a.get("val") in pre and e.a["reg"] not in regs:
+                regs[e.a["reg"]] = (tr, pre[e.a["val"]], e)
+    cat._prefired = regs
+    return regs
+
+
+def prefired_fires(cat):
+    """FIRE events on an element taken straight from such a registry that are not under a test of .called:
+    callback()/errback() raises AlreadyCalledError there.  [(context, FIRE event, registry, origin)]"""
+    regs = prefired_registries(cat)
+    out = []
+    if not regs:
+        return out
+    seen = set()
+    for tr in contexts(cat):
+        for f in tr.path.walk():
+            if f.kind != "FIRE":
+                continue
+            own = owner_of_fire(f)
+            rg = elem_reg(own)
+            if rg not in regs:
+                continue
+            guarded = any(isinstance(c.term, tuple) and mentions(c.term, ("attr", f.a["dfr"], "called")) for c in f.conds)
+            if guarded or (tr.label(), f.file, f.line) in seen:
+                continue
+            seen.add((tr.label(), f.file, f.line))
+            out.append((tr, f, rg, regs[rg]))
+    return out
+
+
 def rule_drop(ctx, cat, prefix="R-DROP"):
     """At least once: every removal of a Deferred-carrying entry is accompanied by a fire, a transfer of the Deferred
     to an entry that is registered, or a re-registration of the entry itself."""
